@@ -93,6 +93,7 @@ Inductive dkind :=
   | DRedefine | DSegmentRange | DUnknownDefinition | DFieldNotAllowed | DMissingFields | DConfigKey
   | DBranchTooFar | DInvalidInstruction | DUnknownIdentifier | DNotInteger | DNotString
   | DEval (e : everr) | DImportDefined | DAlign | DInvalidName | DNotConverged
+  | DSegmentHasCode   (* `.define segment` of a segment that already received bytes in this pass (they would be lost) *)
   | DPcRange.     (* C06: `* =` / segment start / pc outside 0..$10000, or a relocated address below 0 *)
 Record diag := mkDiag { d_kind : dkind; d_span : option span; d_path : ipath; d_nums : list Z }.
 
@@ -117,7 +118,7 @@ Definition dkind_eqb (a b : dkind) : bool :=
   | DFieldNotAllowed, DFieldNotAllowed | DMissingFields, DMissingFields | DConfigKey, DConfigKey
   | DBranchTooFar, DBranchTooFar | DInvalidInstruction, DInvalidInstruction | DUnknownIdentifier, DUnknownIdentifier
   | DNotInteger, DNotInteger | DNotString, DNotString | DImportDefined, DImportDefined | DAlign, DAlign
-  | DInvalidName, DInvalidName | DNotConverged, DNotConverged | DPcRange, DPcRange => true
+  | DInvalidName, DInvalidName | DNotConverged, DNotConverged | DPcRange, DPcRange | DSegmentHasCode, DSegmentHasCode => true
   | DEval x, DEval y => everr_eqb x y
   | _, _ => false
   end.
@@ -483,6 +484,15 @@ Definition set_current_pc (pc : Z) (c : ctx) : ctx :=
 Definition select_segment (o : option ident) (c : ctx) : ctx := set_segments c (segments c) o.
 Definition bump_macro_id (c : ctx) : ctx := set_macro_id c (S (next_macro_scope_id c)).
 
+(* `self.segments.get(&name)` exists and `!existing.range().is_empty()`: (re)defining it would drop what this pass assembled into it *)
+Definition segment_has_code (c : ctx) (name : ident) : bool :=
+  match seg_get (segments c) name with Some s => fst (g_range s) <? snd (g_range s) | None => false end.
+
+Definition install_checked (idspan : span) (name : ident) (o : segment_options) : M unit :=
+  c <- get ;;
+  if segment_has_code c name then err1 DSegmentHasCode (Some idspan) [name] []
+  else modify (install_segment name o).
+
 (* Token::Definition, `segment` *)
 Definition define_segment (idspan : span) (l : list cfgpair) : M unit :=
   match validate_segment idspan l with
@@ -527,7 +537,7 @@ Definition define_segment (idspan : span) (l : list cfgpair) : M unit :=
                              end
                  | None => ret initial_pc
                  end) ;;
-      modify (install_segment name (mkSegOpts bank initial_pc write target))
+      install_checked idspan name (mkSegOpts bank initial_pc write target)
   end.
 
 Definition ascii_bytes (s : text) : option (list N) :=
